@@ -252,7 +252,7 @@ func runCheck(o checkOpts) int {
 	} else {
 		fmt.Println("scratch:", scratch)
 	}
-	ms := 10000
+	ms := 20000 // well above the slowest obligation on the pinned tree (about 1 s, 3 s under load)
 	all := false
 	if o.tier == "thorough" {
 		ms = 60000
